@@ -5,7 +5,7 @@ import re
 from .core import Outcome, VERIF, crash_signature
 
 NAME = 'allocsim'
-TIMEOUT = 240.0
+TIMEOUT = 600.0
 SHRINK_LINES = True
 
 _src = open(os.path.join(VERIF, 'exec', 'allocsim.c')).read()
@@ -33,7 +33,7 @@ def gen_plan(rng, tier, config, opts):
                 size = 'big'
         if name in SMALL_ONLY and size in ('edge', 'over'):
             size = 'full'
-        maxk = 24 if tier == 'quick' else 20000
+        maxk = 16 if tier == 'quick' else 1500
         ln = 'OP %s seed=%s size=%s fail=%s max=%d pick=%d fill=%d,%d' % (
             name, rng.bytes(8).hex(), size, 'none' if capacity else 'all', maxk, rng.below(1 << 30), rng.below(1 << 30), rng.below(1 << 30))
         if rng.chance(0.2):
